@@ -441,7 +441,7 @@ def sc_mangled(run, rng, sender, start, g, per):
         allidx += new
         st.tick_receiver()
     last = allidx[-1]
-    for delta in (0, 1, 33, 40, 300, 20000, -1, -33, -300):
+    for delta in (1, 33, 40, 300, 20000, -1, -33, -300):
         st.inject_mangled(last, "seq", delta)
     st.inject_mangled(allidx[0], "seq", 5000)
     st.advance(30)
